@@ -14,6 +14,7 @@ Emitted into coq/Gen/Generated.v:
 import ast
 
 from vh.translate import TranslateError, _parse, _class, _func, coq_string, coq_strings, coq_Z
+from vh.translate import parse_template      # templates in the same normal form as the parsed katdal files
 
 REL = 'katdal/dataset.py'
 GROUPS = ('time_selectors', 'freq_selectors', 'corrprod_selectors')
@@ -331,7 +332,7 @@ def _unify(node, tmpl, holes, where):
 
 def _match_stmts(stmts, template_src, holes, where):
     import textwrap
-    tmpl = ast.parse(textwrap.dedent(template_src)).body
+    tmpl = parse_template(textwrap.dedent(template_src)).body
     _unify(list(stmts), tmpl, holes, where)
 
 
